@@ -255,25 +255,10 @@ func (rs *bodyStream) skipRest() error {
 			// the handler stopped in the middle of a chunk: drop the rest of its
 			// payload and the CRLF after it before looking for the next chunk size,
 			// otherwise payload bytes would be parsed as chunk framing.
-			for rs.chunkLeft > 0 {
-				skip := rs.reader.Len()
-				if skip == 0 {
-					if _, err := rs.reader.Peek(1); err != nil {
-						return err
-					}
-					skip = rs.reader.Len()
-				}
-				if skip > rs.chunkLeft {
-					skip = rs.chunkLeft
-				}
-				if err := rs.reader.Skip(skip); err != nil {
-					return err
-				}
-				rs.chunkLeft -= skip
-				if err := rs.reader.Release(); err != nil {
-					return err
-				}
+			if err := discard(rs.reader, rs.chunkLeft); err != nil {
+				return err
 			}
+			rs.chunkLeft = 0
 			if err := utils.SkipCRLF(rs.reader); err != nil {
 				return err
 			}
@@ -289,7 +274,8 @@ func (rs *bodyStream) skipRest() error {
 				return SkipTrailer(rs.reader)
 			}
 
-			err = rs.reader.Skip(chunkSize)
+			// the chunk may not have arrived yet: Skip alone fails on unbuffered data
+			err = discard(rs.reader, chunkSize)
 			if err != nil {
 				return err
 			}
@@ -355,6 +341,31 @@ func (rs *bodyStream) skipRest() error {
 			return nil
 		}
 	}
+}
+
+// discard drops the next n bytes of r, waiting for them when they are not buffered yet.
+func discard(r network.Reader, n int) error {
+	for n > 0 {
+		skip := r.Len()
+		if skip == 0 {
+			if _, err := r.Peek(1); err != nil {
+				return err
+			}
+			skip = r.Len()
+		}
+		if skip > n {
+			skip = n
+		}
+		if err := r.Skip(skip); err != nil {
+			return err
+		}
+		n -= skip
+		// After Skip, the buffer needs to be released to prevent OOM if there are too much data on conn.
+		if err := r.Release(); err != nil {
+			return err
+		}
+	}
+	return nil
 }
 
 // ReleaseBodyStream releases the body stream.
